@@ -408,7 +408,8 @@ Lemma watch_fifo_l o s l :
   let s' := fst (step o s l) in
   (exists x, st_watch s' = st_watch s ++ x) \/
   (l = LRun BrWatch /\ st_pc s = PSelect /\
-   exists e, st_watch s = e :: st_watch s' /\ st_pc s' = (if e then PFinal false else PReload)).
+   exists e, st_watch s = e :: st_watch s' /\ st_pc s' = (if e then PFinal false else PReload)) \/
+  (exists b bg, l = LRun b /\ st_pc s = PFinal bg /\ st_watch s' = firstn 1 (st_watch s)).
 Proof.
   destruct s as [ph p lv g op cc cl sg w asy cx pv].
   assert (forall wl : list bool, exists x, wl = wl ++ x) as SAME by (intros wl; exists []; now rewrite app_nil_r).
@@ -425,15 +426,15 @@ Proof.
       destruct err; [destruct initial|]; simpl; left; apply SAME.
     + unfold take. simpl. destruct b.
       * destruct w as [|e r]; simpl; [left; apply SAME|].
-        right. split; [reflexivity|split; [reflexivity|]]. exists e. destruct e; simpl; auto.
+        right; left. split; [reflexivity|split; [reflexivity|]]. exists e. destruct e; simpl; auto.
       * destruct asy; simpl; left; apply SAME.
       * destruct sg as [|[] r]; simpl; left; apply SAME.
       * destruct cc; simpl; left; apply SAME.
       * destruct cx; simpl; left; apply SAME.
     + destruct (svc_blocked _ _); simpl; try (left; apply SAME);
         try (destruct (svc_shutdown _ _) as [acts ok]; try destruct ok; simpl; left; apply SAME).
-    + destruct (svc_blocked _ _); simpl; try (left; apply SAME);
-        try (destruct (svc_shutdown _ _) as [acts ok]; try destruct ok; simpl; left; apply SAME).
+    + right; right. exists b, bg. split; [reflexivity|split; [reflexivity|]].
+      destruct (svc_blocked _ _); simpl; auto; try (destruct (svc_shutdown _ _) as [acts ok]; simpl; auto).
 Qed.
 
 Lemma async_fifo_l o s l :
@@ -511,3 +512,74 @@ Proof.
     destruct (finished_run_l o ls s log k E EP) as [_ [_ [_ [_ H]]]]. destruct (H NK) as [H0 _]. rewrite H0.
     destruct (p <? _); reflexivity.
 Qed.
+
+(* ---- close(mr.watcher) under a blocked provider goroutine -------------------------------------------- *)
+Lemma count_repeat_panic n : count is_sender_panic (repeat ASenderPanic n) = n.
+Proof. induction n; simpl; auto. rewrite count_cons. simpl. now rewrite IHn. Qed.
+
+Lemma fprefix_panics s : count is_sender_panic (final_prefix s) = pred (length (st_watch s)).
+Proof.
+  unfold final_prefix. rewrite count_app, count_repeat_panic.
+  destruct (st_open s); simpl; rewrite ?count_cons, ?count_nil; simpl; lia.
+Qed.
+
+Lemma step_panics o s l :
+  count is_sender_panic (snd (step o s l)) =
+  match l, st_pc s with LRun _, PFinal _ => pred (length (st_watch s)) | _, _ => 0 end.
+Proof.
+  destruct (is_run l) eqn:ER.
+  - destruct l; try discriminate. simpl. unfold run_step.
+    destruct (st_pc s) eqn:EP; simpl; auto.
+    + destruct (setup o (st_gen s) (st_open s)) as [[acts err] open'] eqn:ES.
+      assert (count is_sender_panic acts = 0) as Z.
+      { apply setup_cases in ES as [body [-> SH]]. rewrite count_app, closes_count by reflexivity.
+        rewrite (shape_misc _ _ _ _ SH) by (try (intros []; simpl; congruence); reflexivity). reflexivity. }
+      destruct err; [destruct initial|]; simpl; rewrite count_app, Z; reflexivity.
+    + unfold take. destruct b;
+        repeat match goal with |- context [match ?x with _ => _ end] => destruct x end; simpl; reflexivity.
+    + destruct (svc_blocked _ _); simpl; auto.
+      destruct (svc_shutdown (live_gen s) (cfg_of o (live_gen s))) as [acts ok] eqn:ESW.
+      assert (count is_sender_panic acts = 0) as Z.
+      { replace acts with (fst (svc_shutdown (live_gen s) (cfg_of o (live_gen s)))) by now rewrite ESW.
+        apply sweep_misc; [intros []; simpl; congruence|reflexivity]. }
+      destruct ok; simpl; rewrite count_app, Z; reflexivity.
+    + destruct (svc_blocked _ _); simpl.
+      * rewrite !count_app, fprefix_panics. simpl. rewrite !count_cons, count_nil. simpl. lia.
+      * destruct (svc_shutdown (live_gen s) (cfg_of o (live_gen s))) as [acts ok] eqn:ESW.
+        assert (count is_sender_panic acts = 0) as Z.
+        { replace acts with (fst (svc_shutdown (live_gen s) (cfg_of o (live_gen s)))) by now rewrite ESW.
+          apply sweep_misc; [intros []; simpl; congruence|reflexivity]. }
+        simpl. rewrite !count_app, fprefix_panics, Z. simpl. rewrite !count_cons, count_nil. simpl. lia.
+  - destruct (step o s l) as [s1 a1] eqn:E1.
+    destruct (env_step_shape o s l s1 a1 E1 ER) as [[->|[->| ->]] _]; simpl;
+      destruct l; try discriminate; reflexivity.
+Qed.
+
+(* PARTIAL: as long as at most one notification is ever pending, no provider goroutine panics *)
+Lemma no_sender_panic_l o ls : forall s,
+  (forall l1 l2, ls = l1 ++ l2 -> length (st_watch (fst (run o s l1))) <= 1) ->
+  count is_sender_panic (snd (run o s ls)) = 0.
+Proof.
+  induction ls as [|l r IH]; intros s H; simpl; auto.
+  destruct (step o s l) as [s1 a1] eqn:E1.
+  assert (count is_sender_panic a1 = 0) as Z.
+  { pose proof (step_panics o s l) as SP. rewrite E1 in SP. simpl in SP. rewrite SP.
+    pose proof (H [] (l :: r) eq_refl) as H0. simpl in H0.
+    destruct l; auto. destruct (st_pc s); auto. lia. }
+  specialize (IH s1).
+  destruct (run o s1 r) as [s2 a2] eqn:E2. simpl in *. rewrite count_app, Z. simpl. apply IH.
+  intros l1 l2 E. specialize (H (l :: l1) l2). simpl in H. rewrite E1 in H.
+  destruct (run o s1 l1) as [s3 a3]. simpl in *. apply H. now rewrite E.
+Qed.
+
+(* REFUTED in general: a provider sends a change and, right behind it, a second notification while
+   Run is busy; a shutdown request is taken before the change: the resolver closes the watcher
+   channel under the blocked provider goroutine, which panics (finding C20-WATCH-SEND-ON-CLOSED) *)
+Definition panic_history : list label :=
+  [LRun BrWatch; LInjWatch false; LInjWatch true; LShutdownCall; LRun BrWatch; LRun BrShutdownChan; LRun BrWatch].
+
+Lemma orderly_shutdown_refuted_l :
+  exists o ls, let s := fst (run o init ls) in let log := snd (run o init ls) in
+    In (ASetState Running) log /\ st_pc s = PDone DStopped /\ st_phase s = Closed /\
+    count is_sender_panic log = 1.
+Proof. exists refute_oracle, panic_history. vm_compute. tauto. Qed.
